@@ -52,6 +52,7 @@ CONSTANTS Series, TimesRaw, TOff, Vals, Types, Apps,
           KFV1Hist,    \* TRUE: model the code's deviation KF-C02-2 (v1 AppendHistogram ignores DiscardOutOfOrder)
           PreT,        \* raw times at which series "s1" already holds committed float samples of value 1 when the
                        \*   history starts (saves the three steps needed to create them; {} = empty DB)
+          TSActs,      \* actions after which one witness per distinct state is emitted (@@TS lines)
           Balanced,    \* TRUE (simulation): first draw the kind of the next action uniformly, then the action
           MaxOps, EmitMode
 
@@ -297,39 +298,45 @@ LogFold(work, w) ==
        THEN LogFold(Tail(work), [w EXCEPT ![x.s] = Append(@, [t |-> x.t, v |-> x.v, ty |-> x.ty])])
        ELSE LogFold(Tail(work), w)
 
+\* (TLC re-evaluates a zero-arity LET definition at every reference but evaluates operator arguments once, so the
+\* expensive folds are passed down as arguments.)
+CommitC(a, ap, st1, w1, diff, hid, orphan) ==
+  LET ks == (IF diff THEN {"KF-C01-2"} ELSE {}) \cup (IF hid THEN {"KF-C20-3"} ELSE {})
+            \cup (IF orphan THEN {"KF-C01-5"} ELSE {})
+  IN /\ ks \subseteq AllowKF
+     /\ ino' = st1.ino /\ ooh' = st1.ooh /\ oom' = st1.oom /\ stored' = st1.stored
+     /\ wino' = w1
+     /\ hdel' = hdel /\ htomb' = htomb /\ oghost' = oghost
+     /\ hMin' = Min2(hMin, st1.imin) /\ hMax' = Max2(hMax, st1.imax)      \* updateMinMaxTime
+     /\ app' = [app EXCEPT ![a] = NoApp]
+     /\ UNCHANGED <<hInit, minValid, blk, blkMax, oooSeen>>
+     /\ kfset' = kfset \cup ks
+     /\ Step([a |-> "Commit", app |-> a, exp |-> ExpAll(st1.stored),
+              kf |-> IF orphan THEN "KF-C01-5" ELSE IF hid THEN "KF-C20-3" ELSE IF diff THEN "KF-C01-2" ELSE ""])
+
+CommitB(a, ap, st1, w1) ==
+  LET Key(X) == {<<x.t, Norm(x)>> : x \in {y \in X : y.t >= blkMax}} IN
+  CommitC(a, ap, st1, w1,
+    \* would a WAL replay rebuild a different head than the one this commit leaves?
+    \E s \in Series : LET O == Range(st1.ooh[s]) \cup st1.oom[s] IN
+                       Key(Range(w1[s]) \cup O) # Key(Range(st1.ino[s]) \cup O),
+    \* an out-of-order sample stored under an older head tombstone of its series
+    \E s \in Series : \E x \in (Range(st1.ooh[s]) \cup st1.oom[s]) \ (Range(ooh[s]) \cup oom[s]) :
+                       \E iv \in htomb[s] : x.t >= iv[1] /\ x.t <= iv[2],
+    \* a sample logged while another open appender may hold the not yet logged series record of its series
+    \* (over-approximation: that appender has looked the series up)
+    \E i \in 1..Len(ap.pend) : \E b \in Apps \ {a} : app[b].st = "open" /\ ap.pend[i].s \in app[b].touched)
+
+CommitA(a, ap, logged) ==
+  LET st0 == [ino |-> ino, ooh |-> ooh, oom |-> oom, stored |-> stored,
+              imin |-> PosInf, imax |-> NegInf, omin |-> PosInf, omax |-> NegInf]
+  IN CommitB(a, ap, IF ap.st = "init" THEN st0 ELSE CommitFold(logged, st0, ap.hm, ap.mv),
+                    IF ap.st = "init" THEN wino ELSE LogFold(logged, wino))
+
 Commit(a) ==
   /\ "Commit" \in Acts
   /\ app[a].st \in {"init", "open"}
-  /\ LET ap == app[a]
-         st0 == [ino |-> ino, ooh |-> ooh, oom |-> oom, stored |-> stored,
-                 imin |-> PosInf, imax |-> NegInf, omin |-> PosInf, omax |-> NegInf]
-         logged == OrderPend(ap.pend, ap.nb)            \* order of the WAL records written by log()
-         st1 == IF ap.st = "init" THEN st0 ELSE CommitFold(logged, st0, ap.hm, ap.mv)
-     IN /\ ino' = st1.ino /\ ooh' = st1.ooh /\ oom' = st1.oom /\ stored' = st1.stored
-        /\ wino' = IF ap.st = "init" THEN wino ELSE LogFold(logged, wino)
-        /\ hdel' = hdel /\ htomb' = htomb /\ oghost' = oghost
-        /\ hMin' = Min2(hMin, st1.imin) /\ hMax' = Max2(hMax, st1.imax)      \* updateMinMaxTime
-        /\ app' = [app EXCEPT ![a] = NoApp]
-        /\ UNCHANGED <<hInit, minValid, blk, blkMax, oooSeen>>
-        \* would a WAL replay rebuild a different head than the one this commit leaves?
-        /\ LET w1 == IF ap.st = "init" THEN wino ELSE LogFold(logged, wino)
-               Key(X) == {<<x.t, Norm(x)>> : x \in {y \in X : y.t >= blkMax}}
-               diff == \E s \in Series :
-                          LET O == Range(st1.ooh[s]) \cup st1.oom[s] IN
-                          Key(Range(w1[s]) \cup O) # Key(Range(st1.ino[s]) \cup O)
-               \* an out-of-order sample stored under an older head tombstone of its series
-               hid == \E s \in Series : \E x \in (Range(st1.ooh[s]) \cup st1.oom[s]) \ (Range(ooh[s]) \cup oom[s]) :
-                         \E iv \in htomb[s] : x.t >= iv[1] /\ x.t <= iv[2]
-               \* a sample logged while another open appender may hold the not yet logged series record of its series
-               \* (over-approximation: that appender has looked the series up)
-               orphan == \E i \in 1..Len(ap.pend) : \E b \in Apps \ {a} :
-                            app[b].st = "open" /\ ap.pend[i].s \in app[b].touched
-               ks == (IF diff THEN {"KF-C01-2"} ELSE {}) \cup (IF hid THEN {"KF-C20-3"} ELSE {})
-                     \cup (IF orphan THEN {"KF-C01-5"} ELSE {})
-           IN /\ ks \subseteq AllowKF
-              /\ kfset' = kfset \cup ks
-              /\ Step([a |-> "Commit", app |-> a, exp |-> ExpAll(st1.stored),
-                       kf |-> IF orphan THEN "KF-C01-5" ELSE IF hid THEN "KF-C20-3" ELSE IF diff THEN "KF-C01-2" ELSE ""])
+  /\ CommitA(a, app[a], OrderPend(app[a].pend, app[a].nb))   \* = order of the WAL records written by log()
 
 Rollback(a) ==
   /\ "Rollback" \in Acts
@@ -423,22 +430,26 @@ DropRisk == \E s \in Series : \E x \in Range(wino[s]) :
                x.t < blkMax /\ ~\E y \in stored[s] : y.t = x.t /\ Norm(y) = Norm(x)
 DropKF == IF DropRisk THEN {"KF-C20-4"} ELSE {}
 
+CompactB(st1, doOOO) ==
+  /\ ino' = st1.ino /\ hdel' = st1.hdel /\ UNCHANGED <<wino, htomb>> /\ hMin' = st1.hMin /\ hMax' = st1.hMax
+  /\ minValid' = st1.minValid /\ blkMax' = st1.blkMax
+  /\ blk' = IF doOOO THEN [s \in Series |-> st1.blk[s] \cup OOOAll(s)] ELSE st1.blk
+  /\ ooh' = IF doOOO THEN [s \in Series |-> <<>>] ELSE ooh
+  /\ oom' = IF doOOO THEN [s \in Series |-> {}] ELSE oom
+  /\ oghost' = IF doOOO THEN [s \in Series |-> oghost[s] \cup OOOAll(s)] ELSE oghost
+  /\ kfset' = kfset \cup DropKF
+  /\ UNCHANGED <<hInit, oooSeen, app, stored>>
+  /\ Step([a |-> "Compact", nblocks |-> st1.n, exp |-> ExpAll(stored), kf |-> IF DropRisk THEN "KF-C20-4" ELSE ""])
+
+CompactA(st1) == CompactB(st1, st1.n > 0 /\ oooSeen)
+
 Compact ==
   /\ "Compact" \in Acts
   /\ DropKF \subseteq AllowKF
   /\ NoOpenApp
   /\ hInit
-  /\ LET st0 == [ino |-> ino, hdel |-> hdel, blk |-> blk, hMin |-> hMin, hMax |-> hMax, minValid |-> minValid, blkMax |-> blkMax, n |-> 0]
-         st1 == HeadLoop(st0)
-         doOOO == st1.n > 0 /\ oooSeen
-     IN /\ ino' = st1.ino /\ hdel' = st1.hdel /\ UNCHANGED <<wino, htomb>> /\ hMin' = st1.hMin /\ hMax' = st1.hMax /\ minValid' = st1.minValid /\ blkMax' = st1.blkMax
-        /\ blk' = IF doOOO THEN [s \in Series |-> st1.blk[s] \cup OOOAll(s)] ELSE st1.blk
-        /\ ooh' = IF doOOO THEN [s \in Series |-> <<>>] ELSE ooh
-        /\ oom' = IF doOOO THEN [s \in Series |-> {}] ELSE oom
-        /\ oghost' = IF doOOO THEN [s \in Series |-> oghost[s] \cup OOOAll(s)] ELSE oghost
-        /\ kfset' = kfset \cup DropKF
-        /\ UNCHANGED <<hInit, oooSeen, app, stored>>
-        /\ Step([a |-> "Compact", nblocks |-> st1.n, exp |-> ExpAll(stored), kf |-> IF DropRisk THEN "KF-C20-4" ELSE ""])
+  /\ CompactA(HeadLoop([ino |-> ino, hdel |-> hdel, blk |-> blk, hMin |-> hMin, hMax |-> hMax, minValid |-> minValid,
+                        blkMax |-> blkMax, n |-> 0]))
 
 CompactOOO ==
   /\ "CompactOOO" \in Acts
@@ -470,24 +481,46 @@ Mmap ==
 
 (* Close + Open: blocks reloaded; head rebuilt from m-mapped chunks, WAL and WBL.  In-order data below
    the newest in-order block's MaxTime is not replayed (minValidTime).  Open appenders die. *)
+\* Close + Open with block set blk1 (newest in-order block end mx1) and committed set st1.
+ReopenWith(blk1, mx1, st1, rec) ==
+  LET mv == mx1
+      ino1 == [s \in Series |-> SelectSeq(wino[s], LAMBDA x : x.t >= mv)]
+      its == UNION {{x.t : x \in Range(ino1[s])} : s \in Series}
+      \* in-order head samples below the new horizon that no block holds are dropped by the replay (this only happens
+      \* when a block was imported over the head's range; DB.Compact never leaves such samples)
+      lost(s) == {x \in Range(ino[s]) : x.t < mv /\ x.t >= hMin /\ x.t \notin hdel[s] /\ x \notin blk1[s]
+                                         /\ x \notin Range(ooh[s]) \cup oom[s] \cup oghost[s]}
+      st2 == [s \in Series |-> st1[s] \ lost(s)]
+  IN /\ ino' = ino1 /\ UNCHANGED wino   \* the WAL keeps older records until a checkpoint drops them
+     /\ htomb' = htomb
+     /\ hdel' = hdel   \* tombstone records are replayed from the WAL like the samples they cover
+     /\ minValid' = mv
+     \* DB.open -> reload -> Head.Truncate(inOrderBlocksMaxTime) initialises an empty head at the newest in-order
+     \* block's end before the WAL is replayed
+     /\ hInit' = (mv # NegInf \/ its # {})
+     /\ hMin' = IF mv # NegInf THEN mv ELSE IF its # {} THEN SetMin(its) ELSE PosInf
+     /\ hMax' = IF its # {} THEN Max2(SetMax(its), mv) ELSE mv
+     /\ oom' = [s \in Series |-> oom[s] \cup oghost[s]]
+     /\ blk' = blk1 /\ blkMax' = mx1 /\ stored' = st2
+     /\ UNCHANGED <<ooh, oghost, oooSeen, app, kfset>>
+     /\ Step([rec EXCEPT !.exp = ExpAll(st2)])
+
 Reopen ==
   /\ "Reopen" \in Acts
   /\ NoOpenApp
-  /\ LET mv == blkMax
-         ino1 == [s \in Series |-> SelectSeq(wino[s], LAMBDA x : x.t >= mv)]
-         its == UNION {{x.t : x \in Range(ino1[s])} : s \in Series}
-     IN /\ ino' = ino1 /\ UNCHANGED wino   \* the WAL keeps older records until a checkpoint drops them
-        /\ htomb' = htomb
-        /\ hdel' = hdel   \* tombstone records are replayed from the WAL like the samples they cover
-        /\ minValid' = mv
-        \* DB.open -> reload -> Head.Truncate(inOrderBlocksMaxTime) initialises an empty head at the newest in-order
-        \* block's end before the WAL is replayed
-        /\ hInit' = (mv # NegInf \/ its # {})
-        /\ hMin' = IF mv # NegInf THEN mv ELSE IF its # {} THEN SetMin(its) ELSE PosInf
-        /\ hMax' = IF its # {} THEN Max2(SetMax(its), mv) ELSE mv
-        /\ oom' = [s \in Series |-> oom[s] \cup oghost[s]]
-        /\ UNCHANGED <<ooh, oghost, blk, blkMax, oooSeen, app, stored, kfset>>
-        /\ Step([a |-> "Reopen", exp |-> ExpAll(stored)])
+  /\ ReopenWith(blk, blkMax, stored, [a |-> "Reopen", exp |-> <<>>])
+
+(* promtool-style backfill: while the DB is closed a block holding s1@lo and s1@hi (value symbol 2) is placed in the
+   data directory; it overlaps whatever is there.  Imported samples count as committed content.  The next Open
+   takes the newest in-order block end from it. *)
+Import(lo, hi) ==
+  /\ "Import" \in Acts
+  /\ NoOpenApp
+  /\ lo < hi
+  /\ LET imp == {[t |-> lo, v |-> 2, ty |-> "f"], [t |-> hi, v |-> 2, ty |-> "f"]}
+         blk1 == [blk EXCEPT !["s1"] = @ \cup imp]
+         st1 == [stored EXCEPT !["s1"] = @ \cup imp]
+     IN ReopenWith(blk1, Max2(blkMax, hi + 1), st1, [a |-> "Import", lo |-> lo, hi |-> hi, exp |-> <<>>])
 
 End == nops = MaxOps /\ nops' = MaxOps + 1 /\ UNCHANGED <<hvars, blk, blkMax, oooSeen, app, stored, kfset, kindv, hist>>
 
@@ -498,7 +531,7 @@ KindEnabled(k) ==
     [] k \in {"Commit", "Rollback"} -> \E a \in Apps : app[a].st \in {"init", "open"}
     [] k = "Compact" -> NoOpenApp /\ hInit
     [] k = "CompactOOO" -> NoOpenApp /\ oooSeen
-    [] k \in {"Reopen", "CleanTombstones"} -> NoOpenApp
+    [] k \in {"Reopen", "CleanTombstones", "Import"} -> NoOpenApp
     [] OTHER -> TRUE
 
 Do(k) ==
@@ -512,6 +545,7 @@ Do(k) ==
   \/ k = "CleanTombstones" /\ CleanTombstones
   \/ k = "Mmap" /\ Mmap
   \/ k = "Reopen" /\ Reopen
+  \/ k = "Import" /\ \E lo \in Times, hi \in Times : Import(lo, hi)
 
 Next ==
   \/ /\ nops < MaxOps
@@ -557,6 +591,8 @@ Class == LET r == LastRec IN
                                        ooh' # ooh, oom' # oom, app[r.app].st>>
          ELSE IF r.a = "Compact" THEN <<r.a, r.nblocks, ooh' # ooh \/ oom' # oom, blkMax = NegInf>>
          ELSE IF r.a = "Delete" THEN <<r.a, r.kf, stored' # stored, hdel' # hdel, ooh' # ooh \/ oom' # oom, blk' # blk>>
+         ELSE IF r.a = "Import" THEN <<r.a, stored' = [stored EXCEPT !["s1"] = @ \cup {[t |-> r.lo, v |-> 2, ty |-> "f"], [t |-> r.hi, v |-> 2, ty |-> "f"]}],
+                                      r.hi + 1 > blkMax, blkMax = NegInf, ino' # ino>>
          ELSE IF r.a = "Reopen" THEN <<r.a, kfset, ino' # ino, wino # ino, blkMax = NegInf, hInit>>
          ELSE <<r.a>>
 
@@ -571,7 +607,7 @@ Emit ==
 
 EmitState == EmitMode # "state" \/ PrintT("@@TR " \o ToJson(hist))
 \* one witness per distinct state reached by a Commit that stored something
-EmitCommitState == \/ EmitMode \notin {"class", "commit"} \/ hist[Len(hist)].a # "Commit"
+EmitCommitState == \/ EmitMode \notin {"class", "commit"} \/ hist[Len(hist)].a \notin TSActs
                    \/ PrintT("@@TS " \o ToJson(hist))
 EmitWalk == nops <= MaxOps \/ PrintT("@@TR " \o ToJson(hist))
 =============================================================================
